@@ -1757,6 +1757,32 @@ impl<K: Hash + Eq, V, RH: BuildHasher, REH: BuildHasher, FH: BuildHasher, FEH: B
     }
 }
 
+#[cfg(feature = "verif-hooks")]
+impl<K: Hash + Eq, V, RH: BuildHasher, REH: BuildHasher, FH: BuildHasher, FEH: BuildHasher>
+    AdaptiveCache<K, V, RH, REH, FH, FEH>
+{
+    /// Verification hook (feature `verif-hooks`): read-only views of
+    /// (recent, frequent, recent_evict, frequent_evict).
+    #[doc(hidden)]
+    #[allow(clippy::type_complexity)]
+    pub fn verif_parts(
+        &self,
+    ) -> (
+        &RawLRU<K, V, DefaultEvictCallback, RH>,
+        &RawLRU<K, V, DefaultEvictCallback, FH>,
+        &RawLRU<K, V, DefaultEvictCallback, REH>,
+        &RawLRU<K, V, DefaultEvictCallback, FEH>,
+    ) {
+        (
+            &self.recent,
+            &self.frequent,
+            &self.recent_evict,
+            &self.frequent_evict,
+        )
+    }
+}
+
+
 #[cfg(test)]
 mod test {
     use crate::{AdaptiveCache, Cache};
